@@ -336,6 +336,22 @@ def handled(rng, tier):
             ref = Xl.tensor().reshape(*args, Xl.shape[-1])
             if getattr(V, 'ltype', None) is not Xl.ltype or tuple(V.shape) != tuple(ref.shape) or not torch.equal(V.tensor(), ref) or tuple(V.lshape) != tuple(ref.shape[:-1]):
                 fails.append(dict(clause='lview_is_the_view_with_the_requested_lshape', signature=f'{gname}', source=list(src), args=list(args), got=list(V.shape), want=list(ref.shape)))
+    # in-place ops on VIEWS ("views are transparent"): identity_ on a non-contiguous view sets exactly the viewed items, in the storage viewed
+    for gname in ('SO3', 'SE3', 'RxSO3', 'Sim3'):
+        Ie = getattr(pp, 'identity_' + gname)(dtype=d).tensor()
+        for vname, mkview in (('[:, :2]', lambda Z: Z[:, :2]), ('[::2]', lambda Z: Z[::2]), ('transpose(0,1)', lambda Z: Z.transpose(0, 1)), ('[1]', lambda Z: Z[1]), ('whole', lambda Z: Z)):
+            Zb = getattr(pp, 'randn_' + gname)(3, 3, dtype=d); keep = Zb.tensor().clone()
+            Vw = mkview(Zb)
+            try:
+                r = Vw.identity_(); evals += 1
+            except NotImplementedError:
+                continue                    # the pinned tree implements identity_ for SO3 only and says so for the other types
+            except Exception as e:
+                fails.append(dict(clause='identity__raises', signature=f'{gname}{vname}', error=f'{type(e).__name__}: {e}'[:120])); continue
+            sel = torch.zeros(3, 3, dtype=torch.bool); mkview(sel).fill_(True)
+            ok = bool((Zb.tensor()[sel] == Ie).all()) and torch.equal(Zb.tensor()[~sel], keep[~sel]) and bool((r.tensor() == Ie).all())
+            if not ok:
+                fails.append(dict(clause='inplace_op_on_a_view_writes_the_viewed_items', signature=f'{gname}.identity_ on X{vname}'))
     # documented DEVICE of results: probed on the always-available `meta` device (no data, shapes / dtypes / devices only) - a constant created on the
     # default device inside an accessor shows here on a CPU-only machine; ops that do not run on meta at all are skipped, not judged
     for gname in ('SO3', 'SE3', 'RxSO3', 'Sim3', 'so3', 'se3', 'rxso3', 'sim3'):
